@@ -246,7 +246,52 @@ def _r4(program: Program, run: Run) -> None:
                     run.finding(f"C02/one-shot-iterator-in-state:{f.qualname}:{a}",
                                 f"{f.qualname} stores {r} in self.{a}: the first render that iterates it drains it, so a second render (or the render of a sibling copy sharing it) emits an empty clause",
                                 where=f.loc(n), rule="R4", excerpt=f.module.excerpt(n.lineno, 1))
-    run.ob("C02/R4 object state holds re-iterable containers only", "package", True, detail=f"{nstores} stores to self state scanned; {n_gen} generator functions known", nontrivial=False)
+    # through constructors: `JoinUsing(item, how, (Field(f) for f in fields))` stores the generator via `self.fields = fields`
+    stored_params: dict = {}
+    for c in program.all_classes():
+        init = c.resolve("__init__")
+        if init is None or not init.params:
+            continue
+        sp = {}
+        for n in ast.walk(init.node):
+            if isinstance(n, ast.Assign) and isinstance(n.value, ast.Name) and n.value.id in init.params[1:]:
+                for t in n.targets:
+                    if isinstance(t, ast.Attribute) and isinstance(t.value, ast.Name) and t.value.id == init.params[0]:
+                        sp[n.value.id] = t.attr
+        if sp:
+            stored_params[c.name] = (init, sp)
+    ncalls = 0
+    for f in program.all_functions():
+        for n in ast.walk(f.node):
+            if not (isinstance(n, ast.Call) and isinstance(n.func, ast.Name) and n.func.id in stored_params):
+                continue
+            init, sp = stored_params[n.func.id]
+            ncalls += 1
+            bound = {}
+            pos = init.params[1:]
+            for i_, a_ in enumerate(n.args):
+                if i_ < len(pos) and not isinstance(a_, ast.Starred):
+                    bound[pos[i_]] = a_
+            for k_ in n.keywords:
+                if k_.arg:
+                    bound[k_.arg] = k_.value
+            for prm, a_ in bound.items():
+                if prm not in sp:
+                    continue
+                desc = "a generator expression" if isinstance(a_, ast.GeneratorExp) else None
+                if desc is None and isinstance(a_, ast.Call):
+                    nm = a_.func.id if isinstance(a_.func, ast.Name) else (a_.func.attr if isinstance(a_.func, ast.Attribute) else None)
+                    if nm in LAZY_BUILTINS | LAZY_EXTERN:
+                        desc = f"{nm}(...)"
+                    elif nm in genfuncs and isinstance(a_.func, ast.Attribute):
+                        desc = f"a call of the generator function {nm}"
+                if desc:
+                    run.ob("C02/R4 object state holds re-iterable containers only", f"{f.qualname}:{n.func.id}.{sp[prm]}", False, detail=desc, where=f.loc(n))
+                    run.finding(f"C02/one-shot-iterator-in-state:{f.qualname}:{n.func.id}.{sp[prm]}",
+                                f"{f.qualname} passes {desc} as `{prm}` to {n.func.id}(...), which stores it in self.{sp[prm]}: the first render that iterates it drains it, so every later render of the object "
+                                "(or of a builder sharing it) emits an empty clause", where=f.loc(n), rule="R4", excerpt=f.module.excerpt(n.lineno, 1))
+    run.analysed["constructor_calls_scanned"] = ncalls
+    run.ob("C02/R4 object state holds re-iterable containers only", "package", True, detail=f"{nstores} stores to self state and {ncalls} constructor calls scanned; {n_gen} generator functions known", nontrivial=False)
     run.analysed["state_stores_scanned"] = nstores
     if nstores < 300:
         raise AnalysisError(f"instance count below floor: state stores scanned {nstores}")
